@@ -692,11 +692,52 @@ def _convert_returns(stmts, mk):
     return out
 
 
+def _hoist_nested_helper_calls(func, helpers):
+    """`return a, h(b)` / `t = g(x)[0] if ..`: a call of a new helper that is nested inside a return / assignment is first bound to a
+    temporary placed just before the statement - allowed when every other sub-expression of the statement is call-free, so no evaluation
+    order changes."""
+    k = 0
+    for p in ast.walk(func):
+        for f in ("body", "orelse", "finalbody"):
+            b = getattr(p, f, None)
+            if not isinstance(b, list):
+                continue
+            i = 0
+            while i < len(b):
+                s = b[i]
+                if isinstance(s, (ast.Return, ast.Assign)) and s.value is not None and not (isinstance(s.value, ast.Call) and
+                                                                                           isinstance(s.value.func, ast.Name) and s.value.func.id in helpers):
+                    calls = [c for c in ast.walk(s.value) if isinstance(c, ast.Call)]
+                    hc = [c for c in calls if isinstance(c.func, ast.Name) and c.func.id in helpers]
+                    inner = {id(x) for c in hc for x in ast.walk(c) if x is not c}
+                    others = [c for c in calls if c not in hc and id(c) not in inner]
+                    bad_ctx = any(isinstance(x, (ast.IfExp, ast.BoolOp, ast.Lambda, ast.ListComp, ast.GeneratorExp, ast.DictComp, ast.SetComp))
+                                  for x in ast.walk(s.value))
+                    if len(hc) == 1 and not others and not bad_ctx:
+                        k += 1
+                        tmp = "hr__%d" % k
+                        call = hc[0]
+
+                        class _R(ast.NodeTransformer):
+                            def visit_Call(self, n):
+                                if n is call:
+                                    return ast.copy_location(ast.Name(id=tmp, ctx=ast.Load()), n)
+                                return self.generic_visit(n)
+                        s.value = _R().visit(s.value)
+                        b.insert(i, ast.copy_location(ast.Assign(targets=[ast.Name(id=tmp, ctx=ast.Store())], value=call, lineno=s.lineno), s))
+                        i += 1
+                i += 1
+    if k:
+        ast.fix_missing_locations(func)
+    return k
+
+
 def inline_new_helpers(func, helpers, counter, origin=None):
     """`t = h(args)` / `h(args)` / `return h(args)` with h a module-level function of the current module that the reference module does not
     define, h straight (one return, at the end), no recursion: the call statement is replaced by h's body with fresh local names.
     Evaluation order is preserved: arguments are bound first, in order, then the body runs, then the result is bound."""
     origin = {} if origin is None else origin
+    _hoist_nested_helper_calls(func, helpers)
     done = []
     for _ in range(8):
         hit = None
